@@ -349,7 +349,22 @@ class RaisedException(object):
     exc.details = safe_shift(args)
     exc.user_input = safe_shift(args, {})
     exc.user_input = decode_object(exc.user_input.get("u", RaisedException.NO_INPUT))
+    # The exception object itself was not stored. Formulas that read this cell re-raise .error and
+    # report its class name, so stand in for it with an exception of the same name and text.
+    exc.error = _make_stand_in_error(exc._name, exc._message)
     return exc
+
+_stand_in_error_classes = {}
+
+def _make_stand_in_error(name, message):
+  if not isinstance(name, str):
+    return None
+  if name == depend.CircularRefError.__name__:
+    return depend.CircularRefError(message or "")
+  cls = _stand_in_error_classes.get(name)
+  if cls is None:
+    cls = _stand_in_error_classes[name] = type(name, (Exception,), {})
+  return cls() if message is None else cls(message)
 
 class CellError(Exception):
   def __init__(self, table_id, col_id, row_id, error):
